@@ -4,7 +4,7 @@
 From Coq Require Import List String ZArith.
 Import ListNotations.
 From Anthem Require Import Syntax.Fol Sem.Domain Sem.Sat Model.SimplIntuit Model.SimplClassic
-  Model.StrategyCls Proofs.SimplFull.
+  Model.StrategyCls Model.ClsTerm Proofs.SimplFull Proofs.SimplClassicTotal Proofs.ParserImage.
 
 Theorem C07_full_classic_rules :
   forall r, In r (INTUITIONISTIC ++ HT ++ CLASSIC) ->
@@ -21,3 +21,56 @@ Theorem C07_full_classic_portfolio :
     /\ incl (free_variables G) (free_variables F).
 Proof. exact full_classic_strategies. Qed.
 Print Assumptions C07_full_classic_portfolio.
+
+(* ---------------- no panic at the level of the portfolio (audit A8 b) ----------------
+   The theorems above are about the TOTAL wrappers: Model/SimplClassic.v turns a panic of classic.rs
+   (`guards[0]` on an empty guard list, `chars().next().unwrap()` on an empty variable name, the
+   `panic!`s of substitute) into the identity.  The panic-aware runner [run_strategy_opt] keeps them
+   visible (RPanic).  On the image of the parser,
+       parser_image F := guards_ok F /\ names_ok F
+       (every comparison has at least one guard, every bound variable a non-empty name),
+   no rewrite of the portfolio panics, under any strategy, with any fuel - because the invariant is
+   preserved by all fifteen rewrites, by Formula::substitute and by Apply::apply. *)
+Theorem C07_parser_image_rules :
+  forall r, In r (INTUITIONISTIC ++ HT ++ CLASSIC) -> forall F, parser_image F -> parser_image (r F).
+Proof. exact (proj1 (Forall_forall _ _) portfolio_classic_pi). Qed.
+Print Assumptions C07_parser_image_rules.
+
+Theorem C07_parser_image_substitute :
+  forall F x t G, Subst.substitute F x t = Some G -> parser_image F -> parser_image G.
+Proof. exact substitute_pi. Qed.
+Print Assumptions C07_parser_image_substitute.
+
+Theorem C07_parser_image_strategies :
+  forall (fuel : nat) (s : strategy) (F G : formula), parser_image F ->
+    run_strategy fuel (INTUITIONISTIC ++ HT ++ CLASSIC) s F = Some G -> parser_image G.
+Proof. intros fuel s F G HF. exact (run_strategy_pi fuel _ s F G portfolio_classic_pi HF). Qed.
+Print Assumptions C07_parser_image_strategies.
+
+(* [portfolio_classic_opt] (Model/ClsTerm.v) = the fifteen rewrites with panics visible, the list the
+   correspondence ops run *)
+Theorem C07_full_classic_no_panic :
+  forall (fuel : nat) (s : strategy) (F : formula), parser_image F ->
+    run_strategy_opt fuel portfolio_classic_opt s F <> RPanic.
+Proof. exact classic_no_panic. Qed.
+Print Assumptions C07_full_classic_no_panic.
+
+(* ... and what it returns is what the total portfolio returns, again in the parser image *)
+Theorem C07_full_classic_opt_result :
+  forall (fuel : nat) (s : strategy) (F G : formula), parser_image F ->
+    run_strategy_opt fuel portfolio_classic_opt s F = RDone G -> parser_image G.
+Proof. intros fuel s F G HF. exact (run_strategy_opt_pi fuel _ _ s F G portfolio_classic_opt_safe HF). Qed.
+Print Assumptions C07_full_classic_opt_result.
+
+(* the invariant is needed: outside it the panic-aware runner does panic while the total one does
+   not (audit /work/audit/partD/s2.v) *)
+Example C07_panic_outside_parser_image :
+  let Fp := FQ QExists [mkvar "X" SGeneral]
+              (FBin CAnd (FAtomic (ACmp (GVar "X") [])) (FAtomic (AAtom "p" [GVar "X"]))) in
+  ~ parser_image Fp /\
+  run_strategy_opt 5 portfolio_classic_opt Shallow Fp = RPanic /\
+  exists G, run_strategy 5 (INTUITIONISTIC ++ HT ++ CLASSIC) Shallow Fp = Some G.
+Proof.
+  cbv zeta. split; [intros [[H _] _]; apply H; reflexivity|].
+  split; [vm_compute; reflexivity|eexists; vm_compute; reflexivity].
+Qed.
